@@ -118,58 +118,59 @@ fn c13() -> i32 {
 const TEXT_A: &str = "pragma solidity ^0.8.16;\ncontract A {\n    uint256 x;\n    function f(uint256 a) public {\n        x = a + 1;\n    }\n}\n";
 const TEXT_B: &str = "pragma solidity 0.7.6;\n\ncontract B {\n    uint256 private v;\n    function g(address t, address to) public {\n        IERC20(t).transfer(to, 1);\n    }\n}\n";
 
-#[derive(Clone, Copy, Debug)]
+#[derive(Clone, Debug)]
 enum Call {
+    /// a pattern selected by its documented configuration name (known to have findings on the text)
+    ON(&'static str),
+    VN(&'static str),
+    QN(&'static str),
+    /// the i-th default optimisation (coverage of all detectors across variants)
     O(usize),
-    V(usize),
-    Q(usize),
 }
 
-fn do_call(c: Call, text: &str, file_no: usize) -> Vec<i32> {
+fn do_call(c: &Call, text: &str, file_no: usize) -> Vec<i32> {
     match c {
+        Call::ON(n) => optimizations::analyze_for_optimization(text, file_no, optimizations::str_to_optimization(n))
+            .into_iter()
+            .collect(),
+        Call::VN(n) => vulnerabilities::analyze_for_vulnerability(text, file_no, vulnerabilities::str_to_vulnerability(n))
+            .into_iter()
+            .collect(),
+        Call::QN(n) => qa::analyze_for_qa(text, file_no, qa::str_to_qa(n)).into_iter().collect(),
         Call::O(i) => {
             let all = optimizations::get_all_optimizations();
             optimizations::analyze_for_optimization(text, file_no, all[i % all.len()])
                 .into_iter()
                 .collect()
         }
-        Call::V(i) => {
-            let all = vulnerabilities::get_all_vulnerabilities();
-            vulnerabilities::analyze_for_vulnerability(text, file_no, all[i % all.len()])
-                .into_iter()
-                .collect()
-        }
-        Call::Q(i) => {
-            let all = qa::get_all_qa();
-            qa::analyze_for_qa(text, file_no, all[i % all.len()])
-                .into_iter()
-                .collect()
-        }
     }
 }
 
-/// C15: the same calls sequentially first, then truly concurrently from several threads; results
-/// must agree. `variant` selects which calls are made (so that a batch of Miri runs covers many
-/// detectors while each run stays short).
+/// C15: the same calls sequentially first, then truly concurrently from three threads; results
+/// must agree. Two of the threads run patterns that are known to have findings on their text, so
+/// that the whole path (parse, detector, location -> line conversion) runs concurrently; the third
+/// rotates through all optimisation detectors with `variant`.
 fn c15(variant: usize) -> i32 {
-    let second = match variant % 3 {
-        0 => Call::V(variant / 3),
-        1 => Call::Q(variant / 3),
-        _ => Call::O(variant + 11),
-    };
+    let first = [Call::ON("sstore"), Call::ON("solidity_math"), Call::ON("payable_function"), Call::VN("floating_pragma")];
+    let second = [Call::VN("unsafe_erc20_operation"), Call::QN("private_vars_leading_underscore"), Call::ON("payable_function")];
     let plans: Vec<Vec<(Call, &'static str, usize)>> = vec![
-        vec![(Call::O(variant), TEXT_A, 0)],
-        vec![(second, TEXT_B, 7)],
+        vec![(first[variant % first.len()].clone(), TEXT_A, 0)],
+        vec![(second[variant % second.len()].clone(), TEXT_B, 7)],
+        vec![(Call::O(variant), if variant % 2 == 0 { TEXT_A } else { TEXT_B }, 256)],
     ];
     // sequential reference, in this same process
     let mut want: Vec<Vec<Vec<i32>>> = vec![];
     for p in &plans {
-        want.push(p.iter().map(|(c, t, n)| do_call(*c, t, *n)).collect());
+        want.push(p.iter().map(|(c, t, n)| do_call(c, t, *n)).collect());
+    }
+    if want[0][0].is_empty() || want[1][0].is_empty() {
+        println!("MISMATCH c15 variant {}: a canary pattern has no finding on its text ({:?})", variant, want);
+        return 1;
     }
     let mut handles = vec![];
     for p in plans.clone() {
         handles.push(std::thread::spawn(move || {
-            p.iter().map(|(c, t, n)| do_call(*c, t, *n)).collect::<Vec<_>>()
+            p.iter().map(|(c, t, n)| do_call(c, t, *n)).collect::<Vec<_>>()
         }));
     }
     let mut got = vec![];
